@@ -164,6 +164,12 @@ static bool clause_is_ours(const char *clause)
 #define CHECK(cond, clause, ...) do { if (!(cond)) { \
         if (vf::clause_is_ours(clause)) vf::verif_fail(clause, __VA_ARGS__); \
         throw vf::Abandon{clause}; } } while (0)
+// run f; false when a clause of another property failed inside it (used by the C15 twin comparison:
+// a model failure on only one of {cleared container, fresh twin} is itself a difference)
+template <class F> static bool model_ok(F &&f)
+{
+    try { f(); return true; } catch (const Abandon &) { return false; }
+}
 // for use inside callbacks invoked by the library (must not throw)
 #define CHECK_NOTHROW(cond, clause, ...) do { if (!(cond)) { \
         if (vf::clause_is_ours(clause)) vf::verif_fail(clause, __VA_ARGS__); \
